@@ -99,6 +99,31 @@ def gen(tier, rng):
                 ops.append("it")
         ops += ["gp0", "gp1", "gp2", "gp255", "gs0", "gs1", "gs31", "it"]
         cases.append("ctx " + ",".join(ops))
+    # a PPS with a large explicit slice-group map stored and looked up (implementation only; ids re-read from the bits)
+    for cnt in ([36865, 139264, 139265] if tier == "quick" else [36864, 36865, 65536, 139264, 139265, 262144]):
+        sx = g.gen_sps(rng, sps_id=0, small=True)
+        px = g.gen_pps(rng, sx, pps_id=3, force={"num_slice_groups_minus1": rng.choice([1, 3, 7]), "map_type": 6, "npix": cnt - 1})
+        rb = g.enc_pps(px, rng).bytes()
+        cases.append("!ctx S%s,P%s,gp3,it raw:%s" % (hx(g.sps_nal(sx, rng)), hx(g.nal_bytes(8, 3, rb)), hx(rb)))
+    # every one of the 256 PPS ids (and 32 SPS ids) in ONE context, in several orders, then some re-put, then every id looked up
+    for order in range(3 if tier == "quick" else 12):
+        s0 = g.gen_sps(rng, sps_id=0, small=True, force={"profile_idc": 66})
+        ops = ["S" + hx(g.sps_nal(s0, rng))]
+        for i in range(1, 32):
+            s1 = dict(s0)
+            s1["id"] = i
+            ops.append("S" + hx(g.sps_nal(s1, rng)))
+        ids = list(range(256))
+        if order == 1:
+            ids.reverse()
+        elif order >= 2:
+            rng.shuffle(ids)
+        for i in ids:
+            ops.append("P" + hx(pps_with(rng, s0, i, i)))
+        for i in [ids[-1], ids[0], rng.randrange(256)]:
+            ops.append("P" + hx(pps_with(rng, s0, i, (i + 7) % 300)))
+        ops += ["gp%d" % i for i in range(256)] + ["gs%d" % i for i in range(32)] + ["it"]
+        cases.append("ctx " + ",".join(ops))
     # a stored PPS replaced by an almost identical one (one structured edit), for every slice-group map type
     for i in range(400 if tier == "quick" else 8000):
         s = g.gen_sps(rng, sps_id=0, small=True, force={"w": 11, "h": 11})
@@ -145,6 +170,12 @@ def edits(rng, p):
 
 def extra_check(r):
     """the other Iterator entry points of Context::sps() / pps() agree with next()"""
+    if r["case"].startswith("!ctx"):
+        from vlib.props import C05
+        gp = [t for t in r["dev"].split() if t.startswith("gp:")]
+        if not gp or "slice_group_id" not in gp[0]:
+            return ("value", "the stored PPS with a large explicit map is not returned by the lookup")
+        return C05.big_map_check(dict(r, case="!pps - " + r["case"].split()[2], dev=gp[0]))
     if "alt=" in r["dev"]:
         return ("value", "an iterator entry point other than next() disagrees with next(): " + r["dev"].split("alt=")[1][:200])
     return None
